@@ -200,6 +200,24 @@ def PQ.pop (q : PQ) : Option (Item × PQ) :=
   | none => none
   | some m => some (m, { q with items := q.items.erase m })
 
+/-- `sortutil.PriorityQueue` in its real representation: the `priorityQueueHeap` slice managed by
+    container/heap (`heap.Push` / `heap.Pop` with `Less = Item.lt`) and `orderCounter` -/
+structure HPQ where
+  heap    : List Item := []
+  counter : Nat := 0
+  deriving Repr, Inhabited
+
+/-- `PriorityQueue.Push`: clamp, `heap.Push(pq.heap, &pqItem{value, priority, pq.orderCounter, 0})`, counter++ -/
+def HPQ.push (q : HPQ) (val : Nat) (prio : Int) : HPQ :=
+  { heap := Heap.push Item.lt q.heap { prio := if prio < 0 then 0 else prio, seq := q.counter, val := val },
+    counter := q.counter + 1 }
+
+/-- `PriorityQueue.Pop`: `nil` on an empty heap, otherwise `heap.Pop(pq.heap)` -/
+def HPQ.pop (q : HPQ) : Option (Item × HPQ) :=
+  match Heap.pop Item.lt q.heap with
+  | none => none
+  | some (x, h) => some (x, { q with heap := h })
+
 /-- `TaskQueue.queues`: root monitor id ↦ queue -/
 abbrev TQ := List (Nat × PQ)
 
